@@ -11,10 +11,12 @@ LEVEL_TEXT = ("Theorems about kernels regenerated from constraint.py on every ru
               "k/b for negative solref, the two-branch sigmoid impedance, D = 1/max(R, MINVAL), aref = -b vel - k imp pos) under five explicit hypotheses where the code departs from C (witnesses); "
               "imp in [dmin,dmax] and 0 < D <= 1e15 unconditionally (C24's hypothesis); ne/nf/nl count the requested rows of each class for every interleaving; for every schedule the row "
               "classes occupy consecutive index blocks [0,ne) [ne,ne+nf) [..,+nl) [..,nefc); every contact efc_address >= 0 points at a row with efc_id = that contact, rows contiguous, -1 "
-              "where the row did not fit; pyramidal rows use MuJoCo's pyramid regulariser. Rows are compared as multisets with mujoco.mj_forward.")
+              "where the row did not fit; pyramidal rows use MuJoCo's pyramid regulariser. Rows are compared as multisets with mujoco.mj_forward; contact rows additionally one by one (contact k, direction i) "
+              "with a tolerance relative to each row, with an explicit anisotropic-friction <pair> contact (condim 3/4/6) forced in every case.")
 LEVEL_NOTE = ("C05_partial: Jacobian values (C22), adhesion branch, flex builders. Five documented departures from mj_makeImpedance on degenerate solimp/solref (C05Witness). "
               "Trusted: Lean kernel + Mathlib, tier-B translator (interception incl. allocation replay).")
-ASSUMPTIONS = ["rows compared as sorted tuples (type, pos, margin, D, aref, frictionloss) with tolerance 2e-3 relative; cvel consistent (mj_forward before put_data)"]
+ASSUMPTIONS = ["rows compared as sorted tuples (type, pos, margin, D, aref, frictionloss) with tolerance 2e-3 relative; cvel consistent (mj_forward before put_data)",
+               "per-contact rows: put_data keeps MuJoCo's contact order, so contact k / row i is the same row on both sides; D within 5e-3 relative per row, aref within 5e-3 of the contact's largest |aref|"]
 
 
 def _run(ctx, ncases, rec):
@@ -22,12 +24,18 @@ def _run(ctx, ncases, rec):
   import mujoco_warp as mjw
   from harness.gen import models
   rng = np.random.default_rng(ctx.seed * 1000 + 5)
+  prng = np.random.default_rng(ctx.seed * 1000 + 505)   # parameters of the explicit pairs (own stream)
   acc = Acc()
 
   def scenario():
     for c in range(ncases):
       cone = "elliptic" if rng.random() < 0.5 else "pyramidal"
       jac = "sparse" if rng.random() < 0.4 else "dense"
+      if c % 4 != 3:
+        # fixed rotation (three of four cases; the fourth keeps the random draw): elliptic/pyramidal alternate, and the elliptic cases alternate dense/sparse
+        cone = "elliptic" if c % 2 == 0 else "pyramidal"
+        if c % 2 == 0:
+          jac = "dense" if c % 4 == 0 else "sparse"
       wb, sp = models.random_tree(rng, nbody=int(rng.integers(2, 6)), geom_types=["sphere", "capsule", "box"], spread=0.3, sites=False, joint_types=("free", "hinge", "slide", "ball"))
       extra = ""
       eqs = []
@@ -48,6 +56,21 @@ def _run(ctx, ncases, rec):
         eqs.append(f'<joint joint1="{hj[0]}" polycoef="0.1 0 0 0 0"/>')
       if eqs:
         extra = "<equality>" + "".join(eqs) + "</equality>"
+      # EVERY case: a sphere held at a height where it always touches the floor (slide along x, hinge about y through its centre),
+      # whose contact comes from an explicit <pair> with anisotropic friction (mu1 != mu2, torsional, two rolling coefficients all
+      # distinct), condim 3/4/6 in rotation; plus the same kind of pair for one geom of the random tree (in contact or not: recorded)
+      pcd = (3, 4, 6)[c % 3]
+      mu = prng.uniform(0.2, 1.2, size=2)
+      if abs(mu[0] - mu[1]) < 0.25 * mu[0]:
+        mu[1] = mu[0] * (0.4 if prng.random() < 0.5 else 2.2)
+      pfr = f"{mu[0]:.3f} {mu[1]:.3f} {prng.uniform(0.002, 0.05):.4f} {prng.uniform(0.0001, 0.002):.5f} {prng.uniform(0.002, 0.01):.5f}"
+      wb = wb + f'\n    <body name="c05pb" pos="{prng.uniform(-2, 2):.3f} {prng.uniform(2.5, 3.5):.3f} {prng.uniform(0.06, 0.095):.4f}"><joint name="c05ps" type="slide" axis="1 0 0"/>' \
+                f'<joint name="c05ph" type="hinge" axis="0 1 0"/><geom name="c05pg" type="sphere" size="0.1"/></body>'
+      pairs = f'<pair geom1="floor" geom2="c05pg" condim="{pcd}" friction="{pfr}"/>'
+      if sp.geoms:
+        mu2 = prng.uniform(0.2, 1.2) * np.array([1.0, float(prng.choice([0.35, 0.6, 1.7, 2.5]))])
+        pairs += f'<pair geom1="floor" geom2="{sp.geoms[int(prng.integers(0, len(sp.geoms)))]}" condim="{(4, 6, 3)[c % 3]}" friction="{mu2[0]:.3f} {mu2[1]:.3f} 0.01 0.0005 0.002"/>'
+      extra += "<contact>" + pairs + "</contact>"
       xml = models.wrap(wb, option=f'cone="{cone}" jacobian="{jac}" timestep="0.004"', extra=extra)
       xml = xml.replace('type="hinge"', 'type="hinge" limited="true" range="-0.3 0.3" frictionloss="0.2" solreflimit="0.03 1.1" margin="0.01"')
       xml = xml.replace('type="ball"', 'type="ball" limited="true" range="0 0.4"')
@@ -112,8 +135,39 @@ def _run(ctx, ncases, rec):
       if A.shape != B.shape or (B.size and not np.allclose(A, B, rtol=5e-3, atol=5e-3 * (1 + np.abs(B).max()))):
         ok = False
         acc.find(f"constraint rows (type, D, aref) differ from MuJoCo as multisets ({cone}, {jac})", "constraint.make_constraint", "rows-vs-mujoco", xml=xml, qpos=mjd.qpos.tolist(), qvel=mjd.qvel.tolist())
-      # contact row addresses
+      # contact rows one by one: the contacts are MuJoCo's own, in MuJoCo's order (put_data), so contact k / direction i is ONE row on
+      # both sides (elliptic: condim rows, pyramidal: 2(condim-1) edges in the same order); D and aref of that row are compared with a
+      # tolerance relative to that row's own magnitude (the multiset comparison above is scaled by the largest entry of the whole model)
       nc = int(d.nacon.numpy()[0])
+      if nc == mjd.ncon and not (cnt != ref and only_non_eq):
+        adr_w = d.contact.efc_address.numpy()[:nc]
+        Dw, Aw, Tw = d.efc.D.numpy()[0], d.efc.aref.numpy()[0], d.efc.type.numpy()[0]
+        fr_w = d.contact.friction.numpy()[:nc]
+        for k in range(nc):
+          con = mjd.contact[k]
+          a_m = int(con.efc_address)
+          cd = int(con.dim)
+          nrow = cd if (cone == "elliptic" or cd == 1) else 2 * (cd - 1)
+          aw = adr_w[k][:nrow]
+          if a_m < 0 or (aw < 0).any():
+            if (a_m < 0) != bool((aw < 0).all()):
+              acc.find(f"contact {k}: rows present on one side only (MuJoCo efc_address {a_m}, here {aw.tolist()})", "constraint._efc_contact_init", "contact-rows-present", xml=xml, qpos=mjd.qpos.tolist())
+            continue
+          aniso = cd >= 3 and abs(con.friction[0] - con.friction[1]) > 0.1 * con.friction[0]
+          acc.hit(f"contact-rows:{cone}-condim{cd}-{'aniso' if aniso else 'iso'}")
+          if aniso:
+            acc.hit(f"aniso-pair:{cone}-{jac}")
+          Dm, Am, Tm = mjd.efc_D[a_m: a_m + nrow], mjd.efc_aref[a_m: a_m + nrow], mjd.efc_type[a_m: a_m + nrow]
+          dD = np.abs(Dw[aw] - Dm) / np.maximum(np.abs(Dm), 1e-30)
+          sA = 1e-4 + np.abs(Am).max()
+          dA = np.abs(Aw[aw] - Am) / sA
+          if (Tw[aw] != Tm).any() or dD.max() > 5e-3 or dA.max() > 5e-3:
+            i = int(np.argmax(dD)) if dD.max() > 5e-3 else int(np.argmax(dA))
+            acc.find(f"contact {k} (condim {cd}, {cone}, {jac}, friction {np.round(con.friction, 4).tolist()}): row {i} of the contact has D={Dw[aw][i]:.6g} aref={Aw[aw][i]:.6g}, "
+                     f"MuJoCo D={Dm[i]:.6g} aref={Am[i]:.6g}", "constraint._efc_contact_update", "contact-row-D-aref", xml=xml, qpos=mjd.qpos.tolist(), qvel=mjd.qvel.tolist())
+            ok = False
+            break
+      # contact row addresses
       adr = d.contact.efc_address.numpy()[:nc]
       ids = d.efc.id.numpy()[0][:n]
       types = d.efc.type.numpy()[0][:n]
@@ -134,8 +188,11 @@ def _run(ctx, ncases, rec):
   return acc, kc
 
 
-RULE = ("random trees over a floor with connect (active or not), weld (custom solref/solimp), joint equality, joint limits with margin, ball limits, friction loss, contacts; both cones, dense/sparse; "
-        "forward() vs mujoco.mj_forward: (ne,nf,nl,nefc), the multiset of rows (type, D, aref), and contact.efc_address -> efc_id consistency; distinct = (case, cone, jacobian)")
+RULE = ("random trees over a floor with connect (active or not), weld (custom solref/solimp), joint equality, joint limits with margin, ball limits, friction loss, contacts; in EVERY case a sphere resting on the floor through an explicit <contact><pair> with anisotropic friction "
+        "(mu1 != mu2 by >= 25%, distinct torsional/rolling coefficients, condim 3/4/6 in rotation) plus such a pair for one geom of the tree; elliptic/pyramidal alternate and the elliptic cases "
+        "alternate dense/sparse (every 4th case random); "
+        "forward() vs mujoco.mj_forward: (ne,nf,nl,nefc), the multiset of rows (type, D, aref), per contact and direction (type, D, aref) of the one row against MuJoCo's row of the same contact (hits: contact-rows:<cone>-condim<k>-<aniso|iso>, "
+        "aniso-pair:<cone>-<jacobian>), and contact.efc_address -> efc_id consistency; distinct = (case, cone, jacobian)")
 
 
 def correspondence(ctx):
